@@ -513,7 +513,8 @@ RULE = ('op files from props/C13/plugin.py gen(): shell sessions over random nod
         'history walks, history references with boundary/huge/negative/malformed integers, exit sequences, loop passes), '
         'hostile byte streams, telnet/raw-TCP byte streams in random segmentations, several interleaved sessions on one terminal '
         '(4 recording connections, 2 telnet clients, 1 raw-TCP client, the stdio service; connects/disconnects/reconnects, exit, '
-        'teardown), directed built-in command cases over cyclic trees and deleted nodes, direct SplitCmdline calls; non-trivial = '
+        'teardown), command handlers that act on their own session while the command executes (send, feed keys/lines incl. Enter, '
+        '!!, !n, exit into the same session to nesting depth 0-3, end the session; histories near the 20-line limit), directed built-in command cases over cyclic trees and deleted nodes, direct SplitCmdline calls; non-trivial = '
         'the model run takes a mid-line edit, a history walk, a history reference, a full-history store, tree/user/exit command, '
         'a cycle/deleted-node branch of a built-in, output from at least two sessions, a split with >= 2 arguments or a failure, '
         'or a telnet case delivers events over at least two segments; distinct = distinct op text')
@@ -527,7 +528,9 @@ TRUSTED = ['model lean/TboxModel/C13/Model.lean is hand-written from modules/ter
            'output lines of one op are grouped by session slot: the order of sends between DIFFERENT sessions within one op is not compared',
            'string constants (lean/TboxModel/C13/Msgs.lean) are transcribed by hand; a changed message text shows up as a P-divergence']
 ASSUMPTIONS = ['the host program never deletes the root node',
-               'command nodes (user functions) do not modify the node tree or the session while they run',
+               'command handlers act on their own session only through Session::send/endSession and Terminal::onRecvString (scripted in the '
+               'harness), nest to a bounded depth, do not modify the node tree and do not delete the session',
+               'the host does not destroy Telnetd/TcpRpc while a disconnect task queued by a handler\'s endSession() is pending',
                'isprint/islower behave as in the C locale (the scanner table is dumped under the harness locale)',
                'stdio segments are at most 512 bytes (one read per loop pass); pipe writes of the service never block',
                'memory safety below index logic is observed by ASan/UBSan on the implementation only']
@@ -538,7 +541,8 @@ LEVEL_TEXT = ('Lean 4 theorems over a hand-written model of the terminal shell (
               'contract) plus the key scanner table dumped from the running code and checked by decide; model tied to the code on every run by '
               'differential execution (ASan+UBSan) through recording connections, the real telnet/raw-TCP/stdio services and direct calls')
 LEVEL_NOTE = ('trusted: Lean kernel, hand-written model + differential tie (coverage bounded by the generator, measured in evidence); the model '
-              'describes the tree with patches/C13-01..07 applied - on a tree without 07 the check reports the teardown use-after-free')
+              'describes the tree with patches/C13-01..09 applied - on a tree without 08/09 the check reports the cursor std::out_of_range and the '
+              'history-command recursion under re-entrant use')
 TECHNIQUE = 'Lean 4 refinement/invariant proofs over an executable model + generated scanner table + model/implementation correspondence check'
 DESIGN_REF = 'DESIGN.md §6 C13'
 
